@@ -455,6 +455,9 @@ class LocalConcurrences:
                                   0, len(self.series2) + 1, False)
         else:
             wp = self._wp
+            # Cells used by earlier matches are negated, restore them
+            used = (wp.data < 0) & ~np.isinf(wp.data)
+            wp.data[used] = -wp.data[used]
             if self.window is None:
                 wp.mask = False
             else:
